@@ -17,7 +17,7 @@ def real_data(cfg):
         return np.zeros((cfg["N"], d))
     sp = cfg["space"]
     mid = [(a + b) / 2 for a, b in zip(sp["lo"], sp["hi"])]
-    kind = cfg["model"] if cfg["model"] not in ("extreme", "scripted") else "gauss"
+    kind = cfg["model"] if cfg["model"] not in ("extreme", "scripted", "tiny", "negextreme") else "gauss"
     return models.get(kind, d)(mid, cfg["N"], 20240917)
 
 
